@@ -696,6 +696,11 @@ class Evaluator(object):
                 v_ = a_ + b_ if node['op'] == '+' else (a_ * b_ if node['op'] == '*' else a_ - b_)
                 if v_ >= 0:
                     return ('lit', str(v_))  # arithmetic on literals (named constants read through) is its value
+            if node['op'] in ('*', '+') and l is not None and r is not None and show(r) < show(l):
+                nums = set(H._INTS) | {'std::time::Duration'}
+                lt, rt = (node['l'].get('ty') or '').lstrip('&'), (node['r'].get('ty') or '').lstrip('&')
+                if lt in nums and rt in nums and (lt == rt or node['op'] == '*'):
+                    return ('bin', node['op'], r, l)  # a commutative product / sum of numbers: one operand order
             return ('bin', node['op'], l, r)
         if k == 'Unary':
             op = {'Not': '!', 'Neg': '-'}.get(node['op'], node['op'])
@@ -1175,6 +1180,20 @@ class Evaluator(object):
                 self.emit('try', ('try', bt), node, g, fn, chain)
                 return ('call', 'Ok', (('unit',),), ())
             return ('unit',)
+        if ndecl == 'std::iter::Extend::extend' and len(args_nodes) == 2:
+            # `set.extend(iter)` is `for x in iter { set.insert(x) }` (push for a Vec): one element at a time, in order
+            import canon
+            sty = norm_path(canon.strip_ty(args_nodes[0].get('ty') or ''))
+            meth = 'push' if sty.startswith('std::vec::Vec') else 'insert'
+            if sty and not sty.startswith(('std::collections::HashMap', 'std::collections::BTreeMap', 'std::string::String')):
+                coll = self.eval(args_nodes[0], env, guards, fn, chain)
+                itt = self.eval(args_nodes[1], env, guards, fn, chain)
+                itt, item = iter_view(itt, args_nodes[1])
+                g = guards + [Guard((node['sp'], 'for', 'loop', show(itt), itt))]
+                self.emit('for', itt, node, guards, fn, chain, extra='_')
+                ct = ('call', '%s::%s' % (sty, meth), (coll, item), ())
+                self.emit('call', ct, node, g, fn, chain, callee='%s::%s' % (sty, meth), args=(coll, item), extra={'decl': '%s::%s' % (sty, meth), 'gargs': ()})
+                return ('unit',)
         args = tuple(self.eval(a, env, guards, fn, chain) for a in args_nodes)
         if (is_erased_call(ndecl) or is_erased_call(npath)) and len(args) == 1:
             return args[0]
